@@ -16,6 +16,31 @@ CHECKS = {
             "For 23 target kinds (all register kinds incl. aliases and \\advance, both catcode and mathcode tables, \\endlinechar, parameters, \\newInt(Array), macros, \\let, \\countdef/\\toksdef/\\chardef/\\mathchardef each also on active characters, font selectors, \\globaldefs) every history of { } local global of length 7 (9, closed 10) on one target, 5 (7) on two colliding targets, depth-8 nests with up to 2 (3) assignment clusters in every slot, and every pair of kinds is run on a fresh real VM with a probe after every operation and compared with the model. An explicit-state search per kind merges histories on (depth, value at every open level drained from the real VM) and reaches the fixpoint of the reachable state space in the thorough tier.",
             "Trusted: the snapshot model in c01/src/model.rs (tex.web 268-284, 1211-1218), self-validated against 17 expectations of the repository's own tests. Hash order inside the subject is not controllable: failing cases are re-executed 5x. \\gdef under negative \\globaldefs and \\let to an undefined command are outside the statement.",
             "3 C01"),
+    "C05": ("exploration",
+            "bounded-exhaustive enumeration of lig/kern programs (as raw instruction chains in several layouts) x words x boundary modes against a transliteration of TeX's main-loop cursor and Knuth's loop detector",
+            "Every program of up to 2 (3) rules over left in {boundary, a, b} x right in {a, b, right boundary} x {kerns, all 8 ligature forms inserting a, b or c}, laid out consecutively, behind 300 unreachable instructions (entry-point redirects), with SKIP over a foreign instruction, fall-through and shared tails, and with an unconditional-stop word inside a chain, x 3 boundary characters x every word of length <= 5 over {a,b} x 3 boundary modes: compile reports a loop iff TFtoPL's f(x,y) finds one (and every reported pair really loops); for loop-free programs the compiled run yields the same glyphs, ligature/character distinction, kerns (value and position) as reftex::ligkern::run on the raw words; output originals plus boundaries spell the word. 3.9e7 (1.2e9) runs.",
+            "Trusted: reftex::ligkern (TeX 1034-1040 incl. lig_stack, pack_lig, lft_hit/rt_hit; TFtoPL 88-95), self-validated on every run against 42 TeX-verified cases and 11 loop verdicts from the repository. Alphabets larger than 3 letters and words longer than 5 are outside the bound.",
+            "3 C05"),
+    "C06": ("exploration",
+            "bounded-exhaustive sweeps (every scaled value in the thorough tier) and enumeration of constants / operand lattices through the real VM against transliterations of TeX's scanning and arithmetic routines",
+            "(a) every scaled value with |s| < 2^24 plus windows at powers of two and multiples of 65536 (quick), all 2^32 values (thorough): Display equals print_scaled (TeX 103) and parse_no_units / parse_from_string scan back to the same value. (b) constants through the real VM: sign strings x decimal/octal/hex/alphabetic/internal integer parts at every limit x fraction digit strings (all of <= 2 (4) digits, long patterns to 20 digits, binary ties) x every unit incl. true, em/ex, fil/fill/filll x keyword spacings, for \\dimen, \\count and \\skip, against reftex::scanum (value, error or not, clamped value). (c) \\advance/\\multiply/\\divide on a 58-value boundary lattice squared for count, dimen and skip, plus sweeps of the pure kernels nx_plus_y, xn_over_d, checked_div, from_decimal_digits, Scaled::new. 2.7e8 (4.3e11) evaluations.",
+            "Trusted: reftex::arith and reftex::scanum (tex.web 99-108, 407, 440-462, 1236-1240), self-validated against 30 expectations of the repository's tests. Texts in which TeX itself finds no well-formed constant are judged for no-panic only; operand -2^31 (outside TeX's integers) likewise except for \\advance wrap-around. Known findings D22b and D33 are pinned by the repository's own tests.",
+            "3 C06"),
+    "C09": ("exploration",
+            "bounded-exhaustive enumeration of token strings over the whole vocabulary and of single (double) token deviations from seed programs, in all four interaction modes, in isolated worker processes",
+            "Every string of up to 2 (3) tokens over a 114-token vocabulary (every installed primitive, braces, numbers at and beyond every limit, non-ASCII) and up to 3 (4) over a 40-token core, and every single deletion / substitution / insertion (thorough: every pair over a 12-token vocabulary) applied to 80 seed programs (the repository's all_error_cases plus idioms and extreme-value seeds), each in errorstop, scroll, nonstop and batch mode on a fresh real VM: no panic, no abort (workers run with 512 MB stacks and a 3 GiB address-space limit; a dead or stalled worker is attributed to its case), every error renders to non-empty text with a trace at line >= 1, the execution stack is balanced and the VM runs a further source afterwards. 6.3e5 (3.1e7) runs; budget cut-offs (3000 expansions, 100 recoverable errors) are counted, not judged.",
+            "Trusted: the harness state vtex::HState (same components and hook delegations as StdLibState, real built-ins, in-memory file system, scripted terminal). Known findings D8-the-non-variable and D8-file-area are unimplemented paths (todo!/panic!) keyed by call site (file + source line text); any other site is a violation.",
+            "3 C09"),
+    "C10": ("fault_enumeration",
+            "exhaustive fault enumeration around valid fonts and property lists (every value of every header word, every truncation, every byte mutation in a bounded region, every token fault), in isolated worker processes",
+            "TFM bytes: each of the twelve 16-bit header words set to every value 0..65535 against base files and truncated files, pairs of size-table bytes of minimal files, every truncation length of every corpus font, every 1-byte mutation of the header/char_info/lig-kern region of the smallest fonts. PL text: every token deleted / duplicated / replaced by boundary numbers / unbalanced / truncated in every corpus property list, template property lists at the table-size limits, short texts, deep nesting, many entry points. tfm_to_pl and pl_to_tfm must return (no panic, no abort: a dead worker is attributed to its case) and whatever pl_to_tfm returns must be accepted by tfm::File::deserialize and satisfy the independent reader's size equations. 3.0e7 (1.4e8) cases.",
+            "Trusted: reftex::tfmraw (independent 120-line TFM reader) for the size equations. Overflow checks and debug assertions are on, as in the repository's own test profile.",
+            "3 C10"),
+    "C11": ("exploration",
+            "bounded-exhaustive enumeration of generated property lists and hand-written non-canonical TFM files plus the whole corpus; byte fixed point and semantic equality decided with an independent reader and the lig/kern interpreter on every character pair",
+            "Every warning-free corpus font and every generated property list (dimension lattices per field, tags, NEXTLARGER chains, VARCHAR recipes, header variants, the C05 programs in 5 label layouts, entry-point/boundary placements around index 255/256, table-size boundaries 15/16/17, 63/64/65, 255/256/257) and 2^7 non-canonical encodings of hand-written TFMs: b1 = pl_to_tfm(tfm_to_pl(b0)) must raise no warning, a second round trip must be the byte-for-byte identity with no warning, and b1 must describe the same font as b0 under reftex::tfmraw: same characters, per character the same width/height/depth/italic values and tag, same parameters and header, and reftex::ligkern on the raw words of both files gives the same result for every (left, right) in (chars + boundaries)^2, also compared with CompiledProgram::compile_from_tfm_file on both. 5.9e5 (9.3e6) fonts.",
+            "Trusted: reftex::tfmraw and reftex::ligkern. Header strings are compared modulo ASCII case (TFtoPL upper-cases them silently) and the seven-bit-safe flag against an independent computation (PLtoTF recomputes it); fonts with more than 254 parameters cannot be carried by a property list and are reported separately.",
+            "3 C11"),
     "C08": ("fault_enumeration",
             "every line boundary of every enumerated program as a checkpoint (serialise, deserialise, continue) in three formats; differential oracle against the uninterrupted run",
             "Programs of 1-3 (4) one-line fragments over a 41-fragment alphabet (definitions incl. active characters, aliases of every command kind, all register kinds, both code tables, \\endlinechar, \\globaldefs, open groups with saved values, open conditionals, fonts, \\newInt, interner growth) plus sequences of stream operations with open \\read files: after every line the VM is serialised and deserialised with JSON, MessagePack and bincode through the same calls as the repository's serde tests, and the rest of the program plus an observer that prints 31 targets and drains every open conditional and group must produce identical tokens and error. Second oracle on a subset: ser(de(ser(vm))) equals ser(vm) as canonicalised JSON.",
